@@ -199,6 +199,38 @@ func init() {
 					return v
 				}
 			}
+			if !again && c.Tape.Choose(simrt.StGen, 4, 0) == 1 {
+				// the same PROGRAM runs the workflow a second time after every result
+				// was deleted (library state of the first run is still there): the
+				// items stream through the same FIFO paths again
+				w2 := *w
+				var del []string
+				for p := range ex.Files {
+					if !ex.Extras[p] && ex.Owner[p] != nil && !ex.StreamPaths[p] {
+						del = append(del, p)
+					}
+				}
+				sort.Strings(del)
+				w2.Rounds = [][]string{del}
+				c.Fault("second-round-in-one-program")
+				incR := RunInc(&w2, c.Tape, nil, 0, o1)
+				c.Absorb(incR)
+				if v, ok := inconclusiveEnd(incR); ok {
+					return v
+				}
+				if !completedOK(incR) {
+					return Viol("stream-second-round", "end="+incR.Sim.End.String(), "a program that runs the streaming workflow, deletes the results and runs it again does not complete: %s", endDesc(incR))
+				}
+				if cl, d := checkFinalFiles(incR.Sim.FS.Root, ex, false); cl != "" {
+					return Viol("stream-second-round/"+cl, "", "after the second round in one program: %s", d)
+				}
+				for p := range ex.StreamPaths {
+					if _, ok := WorkFiles(incR.Sim.FS.Root)[p]; ok {
+						return Viol("stream-file-left", "second-round", "streamed output %s exists as a file after the second round", p)
+					}
+				}
+				return OK()
+			}
 			if again {
 				c.Fault("second-run")
 				before := inc.Sim.FS.Snapshot()
